@@ -1,9 +1,9 @@
 SPECIFICATION Spec
 CONSTANTS
-  Scenario = "mio8"
+  Scenario = "nkbare"
   N = 2
   Cap = 16
-  Kinds <- KindsNone
+  Kinds <- KindsVD
   GenK = 1
 VIEW View
 INVARIANT Inv_NoLostWake
